@@ -88,13 +88,18 @@ class FnContract:
         self.inserts = []     # {"where": "before"/"after", "pat": str, "lines": [...], "src_line": n}
         self.canary = True
         self.begin = []       # ghost text placed at the very start of the body
+        self.end = []         # ghost text placed before the last line (the tail expression) of the body
         self.closures = []    # {"pat": closure text, "lines": annotated closure header (ghost ensures)}
         self.attrs = []       # ghost-only attributes placed before the fn (e.g. #[verifier::loop_isolation(false)])
+
+
+TRAIT_INSERTS = {}   # path -> {trait name: [(line, ln)]}
 
 
 def parse_contracts(path):
     fns = {}
     order = []
+    TRAIT_INSERTS[path] = {}
     if not os.path.exists(path):
         return fns, order
     cur = None
@@ -132,6 +137,12 @@ def parse_contracts(path):
                 cur.inserts.append(ins)
                 sect = ins["lines"]
                 continue
+            if st.startswith("@trait "):
+                tn = st[7:].strip()
+                TRAIT_INSERTS[path].setdefault(tn, [])
+                sect = TRAIT_INSERTS[path][tn]
+                cur = None
+                continue
             if st.startswith("@attr "):
                 if cur is None:
                     raise Undecided("bad-contract-file", f"{path}:{ln}: {st}")
@@ -149,6 +160,11 @@ def parse_contracts(path):
                 if cur is None:
                     raise Undecided("bad-contract-file", f"{path}:{ln}: {st}")
                 sect = cur.begin
+                continue
+            if st == "@end":
+                if cur is None:
+                    raise Undecided("bad-contract-file", f"{path}:{ln}: {st}")
+                sect = cur.end
                 continue
             if st.startswith("@nocanary"):
                 cur.canary = False
@@ -256,6 +272,27 @@ def splice_item(item, contracts, unit_name, used, canaries):
     text = item["text"]
     fninfo = {f["name"]: f for f in item["fns"]}
 
+    # ---- traits: ghost members after the opening brace; contracts on body-less method declarations before the `;`
+    if item["kind"] == "trait":
+        tins = None
+        for pth, d in TRAIT_INSERTS.items():
+            if item["name"] in d and pth.startswith(os.path.join(VERIF, "units", unit_name) + os.sep):
+                tins = d[item["name"]]
+        if tins:
+            ob = text.find("{")
+            text = text[:ob + 1] + "\n" + _block(f"{unit_name}|{item['name']}|trait|0", tins) + text[ob + 1:]
+        for q, f in fninfo.items():
+            c = contracts.get(q)
+            if f["has_body"] or not c or not c.header:
+                continue
+            short = q.split("::")[-1]
+            m = re.search(r"\bfn\s+" + re.escape(short) + r"\b", text)
+            if not m:
+                raise Undecided("lost-anchor", f"trait method {q} not found")
+            semi = text.find(";", m.end())
+            text = text[:semi] + "\n" + _block(f"{unit_name}|{q}|header|0", c.header).rstrip("\n") + "\n" + text[semi:]
+            used.add(q)
+
     # ---- closure contracts: `|x| body`  ->  `|x: T| -> (out: U) ensures .. { body }`  (ghost ensures; the body is unchanged)
     for q, f in fninfo.items():
         c = contracts.get(q)
@@ -280,6 +317,28 @@ def splice_item(item, contracts, unit_name, used, canaries):
             header = " ".join(t.strip() for t, _ in cl["lines"])
             region = region.replace(pat, f"{header} {{ {body} }}")
             text = text[:m.end()] + region + text[end:]
+        used.add(q)
+
+    # ---- @end: ghost text before the last line of the body (the tail expression must be a single line)
+    for q, f in fninfo.items():
+        c = contracts.get(q)
+        if not c or not c.end:
+            continue
+        m = None
+        for mm in BODY_RE.finditer(text):
+            if mm.group(1) == q:
+                m = mm
+        if m is None:
+            raise Undecided("lost-anchor", f"no body marker for {q}")
+        ob = text.rfind("{", 0, m.start())
+        end = _find_matching(text, ob, "{", "}")
+        body = text[m.end():end].rstrip()
+        last_nl = body.rfind("\n")
+        last = body[last_nl + 1:]
+        if last.strip().endswith(("}", ";")) or not last.strip():
+            raise Undecided("lost-anchor", f"{q}: @end needs a single-line tail expression, found `{last.strip()[:40]}`")
+        pos = m.end() + last_nl + 1
+        text = text[:pos] + _block(f"{unit_name}|{q}|end|0", c.end) + text[pos:]
         used.add(q)
 
     # ---- before/after insertions (fn regions are delimited by body markers)
